@@ -9,7 +9,8 @@ use flacenc::verif::chan as model;
 
 fn one_sequence(seed: u64) -> Result<usize, String> {
     let mut r = Rng::new(seed);
-    let cap = if r.chance(0.2) { None } else { Some(1 + r.below(5)) };
+    // capacity 0 = rendezvous channel: sequentially only its non-blocking face can be compared
+    let cap = if r.chance(0.2) { None } else if r.chance(0.15) { Some(0) } else { Some(1 + r.below(5)) };
     let (ms, mr) = match cap {
         Some(c) => model::bounded::<u32>(c),
         None => model::unbounded::<u32>(),
@@ -85,7 +86,7 @@ fn one_sequence(seed: u64) -> Result<usize, String> {
                     ("drop_receiver".into(), "drop_receiver".into())
                 }
             }
-            12 if !msend.is_empty() && (!msend[0].is_full() || mrecv.is_empty()) => {
+            12 if !msend.is_empty() && ((cap != Some(0) && !msend[0].is_full()) || mrecv.is_empty()) => {
                 // blocking send that cannot block: the queue has room, or every receiver is gone
                 next += 1;
                 (
